@@ -74,6 +74,17 @@ Proof.
   repeat split; try (vm_compute; reflexivity); vm_compute; intro H; discriminate.
 Qed.
 
+(* create_joint_distribution(model) with rvs=None when every IIV eta has a fixed parameter: the selection is
+   empty, `join([])` runs into joined_rvs[0] -> IndexError (finding C11-CJD-EMPTY-SELECTION-INDEXERROR) *)
+Theorem cjd_default_total_refuted :
+  exists (r : scoll) (fixed : id -> bool) pn (p : list (id * nat)),
+    wf sym r = true /\ default_rvs fixed r = [] /\
+    create_joint_distribution_default nat 0 Nat.mul (fun n => n) (fun n => n) 1 (fun _ _ => None) fixed pn p r = Err IndexError.
+Proof.
+  exists cjd_coll, (fun _ => true), [], [(21%positive, 4); (22%positive, 9); (23%positive, 16)].
+  repeat split; vm_compute; reflexivity.
+Qed.
+
 (* ---- regression (finding C11-UCP-NEGATIVE-COVARIANCE, fixed in 859061b) -----------------------------
    A = [[1, -1/2], [-1/2, 5/4]] has the Cholesky factor L = [[1, 0], [-1/2, 1]]; with all UCPs equal to 0.1
    the code used to return +1/2 for the covariance; now the round trip gives back -1/2 = (L L^T)_10. *)
